@@ -83,7 +83,7 @@ def derive(rng, ancestor, sites, alleles, ns, split_prob=0.3, rev_prob=0.5, k=5,
     return samples
 
 
-def snp_scenario(rng, k, ns, length, nsites, min_gap=None, tries=200, split_prob=0.3):
+def snp_scenario(rng, k, ns, length, nsites, min_gap=None, tries=200, split_prob=0.3, private=False):
     """ancestor + isolated sites + alleles + derived samples; returns dict or None"""
     h = (k - 1) // 2
     gap = min_gap if min_gap is not None else h + 1
@@ -103,9 +103,13 @@ def snp_scenario(rng, k, ns, length, nsites, min_gap=None, tries=200, split_prob
         if not sites:
             continue
         alleles = []
-        for p in sites:
+        for si, p in enumerate(sites):
             alts = [x for x in "ACGT" if x != anc[p]]
             col = [anc[p]] * ns
+            if private:
+                col[si % ns] = rng.choice(alts)          # a substitution private to one sample: every row of the output is distinct
+                alleles.append(col)
+                continue
             nal = rng.choice([1, 1, 1, 2])
             for a in rng.sample(alts, nal):
                 for s in rng.sample(range(ns), rng.randint(1, max(1, ns // 2))):
